@@ -2056,11 +2056,13 @@ func c15r22(rc *core.RC) {
 						guarded = true
 					}
 				}
-				if _, isLoop := path[i-1].(*ast.ForStmt); isLoop {
-					break
-				}
-				if _, isLoop := path[i-1].(*ast.RangeStmt); isLoop {
-					break
+				if i > 0 {
+					if _, isLoop := path[i-1].(*ast.ForStmt); isLoop {
+						break
+					}
+					if _, isLoop := path[i-1].(*ast.RangeStmt); isLoop {
+						break
+					}
 				}
 			}
 			if !guarded {
